@@ -103,15 +103,14 @@ overlap_trim_identity = Contract(
     note="client program: calls the two real functions only through their contracts",
 )
 
-CONTRACTS = [overlap_internal_chunks, trim_chunks, overlap_trim_identity,
-    Contract(
+emc = Contract(
         MODULE,
         "ensure_minimum_chunksize",
         params={"size": T.Int, "chunks": T.Seq(T.Int)},
         locals={"output": T.Seq(T.Int), "new": T.Int},
         returns=T.Seq(T.Int),
         requires=[
-            ("size-pos", "size >= 1"),
+            ("size-nonneg", "size >= 0"),
             ("nonempty", "len(chunks) >= 1"),
             ("chunks-nonneg", "all(chunks[i] >= 0 for i in range(len(chunks)))"),
         ],
@@ -138,7 +137,27 @@ CONTRACTS = [overlap_internal_chunks, trim_chunks, overlap_trim_identity,
             ("exit", "", "lemma_psum_mono(result, 1, len(result))\nassert_(psum(result, 1) == psum(result, 0) + result[0], 'first-r')"),
         ],
     )
-]
+
+rechunked = Contract(
+    MODULE, "_get_overlap_rechunked_chunks",
+    params={"x": ArrX, "depth2": T.Map(T.Int, Depth)},
+    locals={"depths": T.Seq(T.Int)},
+    returns=SSI,
+    requires=[
+        ("one-depth-per-axis (coerce_depth)", "forall(lambda a: (a in depth2.keys()) == (0 <= a and a < len(x.chunks)))"),
+        ("depths-nonneg", "all(ldepth(depth2, a) >= 0 and rdepth(depth2, a) >= 0 for a in range(len(x.chunks)))"),
+        ("axes-nonempty", "all(len(x.chunks[a]) >= 1 and all(x.chunks[a][j] >= 0 for j in range(len(x.chunks[a]))) for a in range(len(x.chunks)))"),
+        ("depth-fits-the-axis", "all(sum(x.chunks[a]) >= ldepth(depth2, a) and sum(x.chunks[a]) >= rdepth(depth2, a) for a in range(len(x.chunks)))"),
+    ],
+    ensures=[
+        ("one-entry-per-axis", "len(result) == len(x.chunks)"),
+        ("C26-every-chunk-holds-both-depths", "all(result[a][j] >= ldepth(depth2, a) and result[a][j] >= rdepth(depth2, a) for a in range(len(result)) for j in range(len(result[a])))"),
+        ("C26-rechunking-keeps-the-axis-length", "all(sum(result[a]) == sum(x.chunks[a]) for a in range(len(result)))"),
+    ],
+    note="caller of ensure_minimum_chunksize, checked against that function's contract; `depth2.values()` is modelled as the depths in axis order (what coerce_depth produces; bounded natively)",
+)
+
+CONTRACTS = [overlap_internal_chunks, trim_chunks, overlap_trim_identity, emc, rechunked]
 
 
 def spec_ldepth(eng, st, axes, a):
@@ -166,6 +185,25 @@ def spec_has_boundary(eng, st, boundary, a):
     return SV(z3.And(z3.Select(mt.dom(boundary.t), a.t), z3.Select(mt.valarr(boundary.t), a.t) != z3.StringVal("none")), T.Bool)
 
 
+def model_depth_values(eng, st, base, node, lv):
+    """depth2.values() for the dict coerce_depth returns ({axis: depth} for axis 0..ndim-1, in axis order): the depths as
+    a sequence indexed by axis."""
+    import z3
+    from vf.core import SV, fresh
+    mt = base.ty
+    sty = T.Seq(Depth)
+    v = fresh(sty, "depthvals")
+    a = z3.Int("a!dv")
+    n = sty.len(v.t)
+    st.assume(n >= 0)
+    st.assume(z3.ForAll([a], z3.And(0 <= a, a < n) == z3.Select(mt.dom(base.t), a)))
+    st.assume(z3.Implies(n > 0, z3.Select(mt.dom(base.t), n - 1)))
+    st.assume(z3.Not(z3.Select(mt.dom(base.t), n)))
+    st.assume(z3.Implies(z3.Select(mt.dom(base.t), 0), n > 0))
+    st.assume(z3.ForAll([a], z3.Implies(z3.And(0 <= a, a < sty.len(v.t)), z3.Select(sty.arr(v.t), a) == z3.Select(mt.valarr(base.t), a))))
+    return v
+
+
 def setup(eng):
     from vf.core import FuncVal
     eng.spec_funcs["has_boundary"] = spec_has_boundary
@@ -175,3 +213,5 @@ def setup(eng):
     eng.spec_funcs["ldepth"] = spec_ldepth
     eng.spec_funcs["rdepth"] = spec_rdepth
     eng.funcs.update(LEMMA_FUNCS)
+    eng.funcs["ensure_minimum_chunksize"] = FuncVal("ensure_minimum_chunksize", "contract", emc)
+    eng.attr_models[("method", T.Map(T.Int, Depth).name, "values")] = model_depth_values
